@@ -105,4 +105,64 @@ theorem getKindSeek_empty :
     ∃ s, Gen.SrcFastx.getKindSeek readExactAt seekCurOp ([], 0) = Res.ok (.error eofErr, s) := by
   exact ⟨([], 0), by simp [Gen.SrcFastx.getKindSeek, readExactAt]⟩
 
+
+/-! ## `EitherRecords::initialize` / `kind` -/
+
+/-- the state of `EitherRecords` after sniffing a source that holds `file`, and what `kind()` answers: at end of input no
+iterator ("Data is empty"); otherwise the iterator of the sniffed format over the chained reader — which delivers `file`
+again —, or the `InvalidData` error of an illegal start character (the reader is gone then).  `fa` / `fq` stand for
+`fasta::Reader::new(chain).records()` / `fastq::Reader::new(chain).records()`. -/
+def eitherAfter {α β : Type} (fa : Bytes → α) (fq : Bytes → β) (file : Bytes) :
+    Except IoErr Gen.SrcFastx.Kind × Option (α ⊕ β) :=
+  match file with
+  | [] => (.error ⟨"UnexpectedEof", "Data is empty"⟩, none)
+  | b :: _ => match sniff file with
+    | some .fasta => (.ok Gen.SrcFastx.Kind.FASTA, some (.inl (fa file)))
+    | some .fastq => (.ok Gen.SrcFastx.Kind.FASTQ, some (.inr (fq file)))
+    | none => (.error (illegalStart b), none)
+
+/-- **`EitherRecords::initialize`** on a fresh object (`records: None, reader: Some(source)`) -/
+theorem eitherInitialize_eq_model {α β : Type} (fa : Bytes → α) (fq : Bytes → β) (file : Bytes) :
+    Gen.SrcFastx.eitherInitialize readExactOp chainOp fa fq none (some file) =
+      Res.ok ((match (eitherAfter fa fq file).1, file with
+                | .error e, _ :: _ => .error e
+                | _, _ => .ok ()), (eitherAfter fa fq file).2, none) := by
+  have hk : eofErr.kind = "UnexpectedEof" := rfl
+  cases file with
+  | nil => simp [Gen.SrcFastx.eitherInitialize, getKind_eq_model, sniffRes, eitherAfter, hk]
+  | cons b r =>
+    by_cases h62 : b = 62
+    · subst h62; simp [Gen.SrcFastx.eitherInitialize, getKind_eq_model, sniffRes, eitherAfter, sniff, toKind]
+    · by_cases h64 : b = 64
+      · subst h64; simp [Gen.SrcFastx.eitherInitialize, getKind_eq_model, sniffRes, eitherAfter, sniff, toKind]
+      · have hs : sniff (b :: r) = none := by
+          unfold sniff
+          split <;> simp_all
+        have hi : ((illegalStart b).kind == "UnexpectedEof") = false := by simp [illegalStart]
+        have hi' : ¬ (illegalStart b).kind = "UnexpectedEof" := by simp [illegalStart]
+        simp [Gen.SrcFastx.eitherInitialize, getKind_eq_model, sniffRes, eitherAfter, hs, hi, hi']
+
+/-- … and once the reader has been taken (`reader: None`), `initialize` does nothing -/
+theorem eitherInitialize_again {α β : Type} (fa : Bytes → α) (fq : Bytes → β) (recs : Option (α ⊕ β)) :
+    Gen.SrcFastx.eitherInitialize readExactOp chainOp fa fq recs none = Res.ok (.ok (), recs, none) := by
+  simp [Gen.SrcFastx.eitherInitialize]
+
+/-- **`EitherRecords::kind`** on a fresh object: the verdict of `sniff`, and the object now holds the iterator of that format
+over a reader that delivers the whole input again -/
+theorem eitherKind_eq_model {α β : Type} (fa : Bytes → α) (fq : Bytes → β) (file : Bytes) :
+    Gen.SrcFastx.eitherKind readExactOp chainOp fa fq none (some file) =
+      Res.ok ((eitherAfter fa fq file).1, (eitherAfter fa fq file).2, none) := by
+  rw [Gen.SrcFastx.eitherKind, eitherInitialize_eq_model]
+  cases file with
+  | nil => simp [eitherAfter]
+  | cons b r =>
+    by_cases h62 : b = 62
+    · subst h62; simp [eitherAfter, sniff]
+    · by_cases h64 : b = 64
+      · subst h64; simp [eitherAfter, sniff]
+      · have hs : sniff (b :: r) = none := by
+          unfold sniff
+          split <;> simp_all
+        simp [eitherAfter, hs]
+
 end RbV.Thm.GenSrcFastx
